@@ -51,14 +51,17 @@ type c19 struct {
 	reach      map[*ssa.Function]bool // statically reachable from Run inside the package
 	underFetch map[*ssa.Function]bool // reachable from a fetcher
 
-	closeSum   map[*ssa.Function]uint64
-	closeBusy  map[*ssa.Function]bool
-	closeSeen  map[*ssa.Function]bool
-	undSeen    map[string]bool
-	undList    []string
-	instrIDs   map[ssa.Instruction]int
-	certIDs    map[ssa.Value]int
-	waitsReady map[*ssa.Function]bool
+	closeSum    map[*ssa.Function]uint64
+	closeBusy   map[*ssa.Function]bool
+	closeSeen   map[*ssa.Function]bool
+	undSeen     map[string]bool
+	busyTargets bool
+	paramFuncs  map[*ssa.Parameter][]*ssa.Function
+	dynCallee   map[ssa.CallInstruction]*ssa.Function
+	undList     []string
+	instrIDs    map[ssa.Instruction]int
+	certIDs     map[ssa.Value]int
+	waitsReady  map[*ssa.Function]bool
 }
 
 func (x *c19) undecide(format string, args ...any) {
@@ -85,7 +88,7 @@ func (x *c19) name(fn *ssa.Function) string { return FuncName(x.p, fn) }
 
 func checkC19(c *Ctx) {
 	r, p := c.R, c.P
-	r.Explanation = "Decides structural necessary conditions of C19 on crypto/spiffe. Constructs are resolved by role (types + dataflow), not by unexported names: the SVID field is the struct field of type *x509svid.SVID, its lock the mutex held where it is stored, the readiness channel the channel field Ready waits on, a fetcher any function returning (*x509svid.SVID, error), the rotation code everything reachable from Run; same-package callees (static calls, closures, deferred calls) are followed by summaries, helpers' contexts by their call sites. " +
+	r.Explanation = "Decides structural necessary conditions of C19 on crypto/spiffe. Constructs are resolved by role (types + dataflow), not by unexported names: the SVID field is the struct field of type *x509svid.SVID, its lock the mutex held where it is stored, the readiness channel the channel field Ready waits on, a fetcher any function returning (*x509svid.SVID, error), the rotation code everything reachable from Run; same-package callees (static calls, closures, deferred calls) are followed by summaries, helpers' contexts by their call sites; calls of function VALUES are followed when every possible target is a known package function (function literals and bound method values in temporaries, captured variables, parameters, named func adapter types, unexported func-typed fields, local literal tables); a literal handed to a helper that calls it (withLock(func(){...})) runs with the helper's locks (second lockset pass with entry locksets handed over) and its closes/fetches are counted at the helper's call of the parameter; GetX509SVID must load the served field during the call (a value captured earlier is a stale source). " +
 		"(X1) no wait for readiness (receive or select on the readiness channel, directly or through a callee) happens while holding the SVID lock in a mode that conflicts with what every close of the channel needs (held at the close, or acquired on every path to it) — the GetX509SVID/Run deadlock; a select whose other cases are only context cancellation counts as a wait. " +
 		"(X2) on every path through Run on which the initial fetch was started the channel is closed exactly once (closes counted through callees and deferred calls); a return without close is only accepted before the fetch, behind the atomic compare-and-swap 'already running' guard; Ready selects on the channel and its context only. " +
 		"(X3) the SVID field is written only under the write lock and read under the lock; every value stored is result 0 of a fetcher call whose error is known nil (or the value known non-nil) at the store, followed through parameters of helpers to all their call sites; GetX509SVID returns a value loaded from the field. " +
@@ -103,11 +106,12 @@ func checkC19(c *Ctx) {
 
 	x := &c19{c: c, r: r, p: p, e: c.Locks(), pkg: p.ModPath + "/crypto/spiffe", fns: p.FuncsOfPkg("crypto/spiffe"),
 		inPkg: map[*ssa.Function]bool{}, undSeen: map[string]bool{}, instrIDs: map[ssa.Instruction]int{}, certIDs: map[ssa.Value]int{},
-		closeSum: map[*ssa.Function]uint64{}, closeBusy: map[*ssa.Function]bool{}, closeSeen: map[*ssa.Function]bool{}}
+		dynCallee: map[ssa.CallInstruction]*ssa.Function{}, closeSum: map[*ssa.Function]uint64{}, closeBusy: map[*ssa.Function]bool{}, closeSeen: map[*ssa.Function]bool{}}
 	for _, fn := range x.fns {
 		x.inPkg[fn] = true
 	}
 	defer x.flushUndecided()
+	x.handOffCallbacks()
 	if !x.resolveRoles() {
 		return
 	}
@@ -120,6 +124,83 @@ func checkC19(c *Ctx) {
 
 	// the file set is published by dir.Write: its crash-consistency rules (shared with C18)
 	c18RunWriterAs(c, "C19.DIR-")
+}
+
+// handOffCallbacks: a function literal handed to a same-package helper that
+// calls it (withLock(func(){...})) runs with the locks the helper holds at that
+// call. The lockset engine gives function values an empty entry lockset, so a
+// second engine is run with those entry locksets handed over.
+func (x *c19) handOffCallbacks() {
+	e0 := x.e
+	hand := map[*ssa.Function]LS{}
+	bad := map[*ssa.Function]bool{}
+	for _, fn := range x.fns {
+		allInstrs(fn, func(in ssa.Instruction) {
+			ci, ok := in.(ssa.CallInstruction)
+			if !ok {
+				return
+			}
+			h := x.pkgCalleeStatic(ci)
+			if h == nil {
+				return
+			}
+			for i, a := range ci.Common().Args {
+				mc, ok := a.(*ssa.MakeClosure)
+				if !ok || i >= len(h.Params) {
+					continue
+				}
+				lit, _ := mc.Fn.(*ssa.Function)
+				if lit == nil || !x.inPkg[lit] || len(refs(mc)) != 1 {
+					continue // only literals whose single use is this argument
+				}
+				if _, isCall := in.(*ssa.Call); !isCall {
+					bad[lit] = true
+					continue
+				}
+				n := 0
+				allInstrs(h, func(j ssa.Instruction) {
+					cj, ok := j.(ssa.CallInstruction)
+					if !ok || cj.Common().IsInvoke() || cj.Common().Value != ssa.Value(h.Params[i]) {
+						return
+					}
+					if _, isCall := j.(*ssa.Call); !isCall {
+						bad[lit] = true // deferred / spawned: not at this point
+						return
+					}
+					n++
+					ls := e0.At(j)
+					if old, ok := hand[lit]; ok {
+						hand[lit] = meetLS(old, ls)
+					} else {
+						hand[lit] = ls.clone()
+					}
+				})
+				// the parameter must not travel anywhere else
+				for _, rr := range refs(h.Params[i]) {
+					if cj, ok := rr.(ssa.CallInstruction); !ok || cj.Common().Value != ssa.Value(h.Params[i]) {
+						bad[lit] = true
+					}
+				}
+				if n == 0 {
+					bad[lit] = true
+				}
+			}
+		})
+	}
+	e := newKitLockEngine(x.p)
+	n := 0
+	for lit, ls := range hand {
+		if bad[lit] || len(ls) == 0 {
+			continue
+		}
+		e.Handoff[FuncName(x.p, lit)] = ls
+		n++
+	}
+	if n == 0 {
+		return
+	}
+	e.Run()
+	x.e = e
 }
 
 // ---------------------------------------------------------------- roles
@@ -139,6 +220,35 @@ func c19IsMutex(t types.Type) bool {
 
 // pkgCallee: the statically known same-package callee of a call/defer/go.
 func (x *c19) pkgCallee(ci ssa.CallInstruction) *ssa.Function {
+	if f := x.pkgCalleeStatic(ci); f != nil {
+		return f
+	}
+	// a dynamic call with exactly one possible target (func adapter type,
+	// func-typed field set once, function literal in a local)
+	if f, ok := x.dynCallee[ci]; ok {
+		return f
+	}
+	var out *ssa.Function
+	if fs := x.enter(ci, nil); len(fs) == 1 {
+		out = fs[0].fn // (a bound method value: the arguments are shifted by the receiver — see argsAligned)
+	}
+	if !x.busyTargets {
+		x.dynCallee[ci] = out
+	}
+	return out
+}
+
+// argsAligned: argument i of the call is parameter i of pkgCallee(ci) (not so
+// for calls of bound method values, whose receiver is not an argument).
+func (x *c19) argsAligned(ci ssa.CallInstruction) bool {
+	if x.pkgCalleeStatic(ci) != nil {
+		return true
+	}
+	fs := x.enter(ci, nil)
+	return len(fs) == 1 && fs[0].args == nil
+}
+
+func (x *c19) pkgCalleeStatic(ci ssa.CallInstruction) *ssa.Function {
 	f := staticCallee(ci)
 	if f == nil || !x.inPkg[f] || len(f.Blocks) == 0 {
 		return nil
@@ -180,8 +290,8 @@ func (x *c19) resolveRoles() bool {
 		for i := 0; i < st.NumFields(); i++ {
 			f := st.Field(i)
 			id := FieldID{x.pkg + "." + n, f.Name()}
-			if c19IsSVIDPtr(f.Type()) {
-				svidFields = append(svidFields, id)
+			if c19IsSVIDPtr(f.Type()) || strings.HasSuffix(namedKey(f.Type()), "/svid/x509svid.SVID") {
+				svidFields = append(svidFields, id) // a pointer, or the value kept next to a flag
 			}
 			if _, ok := f.Type().Underlying().(*types.Chan); ok {
 				chanFields = append(chanFields, id)
@@ -637,7 +747,7 @@ func (x *c19) waitSites() []c19Wait {
 					return
 				}
 				cal := x.pkgCallee(call)
-				if cal == nil {
+				if cal == nil || !x.argsAligned(call) {
 					return
 				}
 				for i, w := range waitParam[cal] {
@@ -663,7 +773,7 @@ func (x *c19) waitSites() []c19Wait {
 				return
 			}
 			for i, w := range waitParam[cal] {
-				if i < len(call.Call.Args) && x.isReady(call.Call.Args[i]) {
+				if x.argsAligned(call) && i < len(call.Call.Args) && x.isReady(call.Call.Args[i]) {
 					out = append(out, c19Wait{fn: fn, instr: in, kind: "call", escapes: w.escapes, desc: "hands " + x.readyName + " to " + x.name(cal) + ", which waits on it,"})
 					break
 				}
@@ -820,8 +930,62 @@ func (x *c19) callCloseSum(ci ssa.CallInstruction) uint64 {
 	if c19IsRequestCall(ci) || c19IsKeyGen(ci) {
 		return 1 << 3
 	}
+	// a call of a function-typed parameter whose targets are bound by the summary being computed
+	if pa, ok := ci.Common().Value.(*ssa.Parameter); ok && !ci.Common().IsInvoke() {
+		if ts, ok := x.paramFuncs[pa]; ok {
+			var sum uint64
+			for _, t := range ts {
+				sum |= x.closeSummary(t)
+			}
+			return sum
+		}
+	}
 	if cal := x.pkgCallee(ci); cal != nil {
+		// callbacks: function values handed to the callee are bound to its parameters
+		binds := map[*ssa.Parameter][]*ssa.Function{}
+		args := ci.Common().Args
+		for i, a := range args {
+			if !x.argsAligned(ci) {
+				break
+			}
+			if _, isSig := a.Type().Underlying().(*types.Signature); !isSig || i >= len(cal.Params) {
+				continue
+			}
+			if ts, ok := x.funcTargets(a, nil, 0); ok {
+				for _, t := range ts {
+					binds[cal.Params[i]] = append(binds[cal.Params[i]], t.fn)
+				}
+			}
+		}
+		if len(binds) > 0 {
+			saved := x.paramFuncs
+			x.paramFuncs = map[*ssa.Parameter][]*ssa.Function{}
+			for k, v := range saved {
+				x.paramFuncs[k] = v
+			}
+			for k, v := range binds {
+				x.paramFuncs[k] = v
+			}
+			savedSum, had := x.closeSum[cal]
+			delete(x.closeSum, cal)
+			sum := x.closeSummary(cal)
+			if had {
+				x.closeSum[cal] = savedSum
+			} else {
+				delete(x.closeSum, cal)
+			}
+			x.paramFuncs = saved
+			return sum
+		}
 		return x.closeSummary(cal)
+	}
+	// any other dynamic call whose targets are known
+	if fs := x.enter(ci, nil); len(fs) > 0 {
+		var sum uint64
+		for _, f := range fs {
+			sum |= x.closeSummary(f.fn)
+		}
+		return sum
 	}
 	return 1 << 0
 }
@@ -1087,11 +1251,18 @@ func (x *c19) svidStores() []*ssa.Store {
 // c19InCell: v is stored into a local variable cell (named result / captured variable).
 func c19InCell(v ssa.Value) bool {
 	for _, rr := range refs(v) {
-		if st, ok := rr.(*ssa.Store); ok && st.Val == v {
-			if _, ok := st.Addr.(*ssa.Alloc); ok {
-				return true
-			}
+		if st, ok := rr.(*ssa.Store); ok && st.Val == v && c19IsCell(st.Addr) {
+			return true
 		}
+	}
+	return false
+}
+
+// c19IsCell: a local variable cell, or a captured variable of a closure.
+func c19IsCell(addr ssa.Value) bool {
+	switch addr.(type) {
+	case *ssa.Alloc, *ssa.FreeVar:
+		return true
 	}
 	return false
 }
@@ -1124,8 +1295,8 @@ func c19ErrKnown(b *ssa.BasicBlock, errv ssa.Value, wantNil bool) bool {
 		if !ok || st.Val != errv {
 			continue
 		}
-		cell, ok := st.Addr.(*ssa.Alloc)
-		if !ok {
+		cell := st.Addr
+		if !c19IsCell(cell) {
 			continue
 		}
 		for _, dc := range domConds(b) {
@@ -1143,13 +1314,13 @@ func c19ErrKnown(b *ssa.BasicBlock, errv ssa.Value, wantNil bool) bool {
 				continue
 			}
 			ld, ok := o.(*ssa.UnOp)
-			if !ok || ld.Op != token.MUL || ld.X != ssa.Value(cell) || !instrDominates(st, ld) {
+			if !ok || ld.Op != token.MUL || ld.X != cell || !instrDominates(st, ld) {
 				continue
 			}
 			clean := true
 			for _, r2 := range refs(cell) {
 				s2, ok := r2.(*ssa.Store)
-				if !ok || s2 == st || s2.Addr != ssa.Value(cell) {
+				if !ok || s2 == st || s2.Addr != cell {
 					continue
 				}
 				if after(st, s2) && after(s2, ld) {
@@ -1238,6 +1409,53 @@ func (x *c19) goodSVID(v ssa.Value, at *ssa.BasicBlock, depth int, seen map[ssa.
 						continue
 					}
 					if ok, def, why := x.goodSVID(st.Val, st.Block(), depth+1, seen); !ok {
+						return false, def, why
+					}
+				}
+			}
+			if n > 0 {
+				return true, true, ""
+			}
+		}
+		if _, isNamed := types.Unalias(t.Type()).(*types.Named); isNamed && t.Op == token.MUL && c19IsSVIDPtr(t.X.Type()) {
+			// the SVID copied by value out of the pointer a fetch returned
+			return x.goodSVID(t.X, at, depth+1, seen)
+		}
+		if fv, isFV := t.X.(*ssa.FreeVar); isFV && t.Op == token.MUL {
+			// a captured variable: the closure must be a literal that runs where it is
+			// written (called directly or handed to a helper as a call argument), so
+			// that the facts at its creation hold when it runs
+			clo := fv.Parent()
+			var mc *ssa.MakeClosure
+			if par := clo.Parent(); par != nil {
+				allInstrs(par, func(in ssa.Instruction) {
+					if m, ok := in.(*ssa.MakeClosure); ok && m.Fn == ssa.Value(clo) {
+						mc = m
+					}
+				})
+			}
+			cell, _ := resolveFreeVar(fv).(*ssa.Alloc)
+			if mc == nil || cell == nil {
+				return false, false, "captured variable " + fv.Name() + " not resolved"
+			}
+			for _, rr := range refs(mc) {
+				if _, isCall := rr.(*ssa.Call); !isCall {
+					return false, false, "the closure storing the SVID is not simply called where it is written"
+				}
+			}
+			n := 0
+			for _, rr := range refs(cell) {
+				if st, isSt := rr.(*ssa.Store); isSt && st.Addr == ssa.Value(cell) {
+					n++
+					if ok, def, why := x.goodSVID(st.Val, mc.Block(), depth+1, seen); !ok {
+						return false, def, why
+					}
+				}
+			}
+			for _, rr := range refs(fv) {
+				if st, isSt := rr.(*ssa.Store); isSt && st.Addr == ssa.Value(fv) {
+					n++
+					if ok, def, why := x.goodSVID(st.Val, at, depth+1, seen); !ok {
 						return false, def, why
 					}
 				}
@@ -1393,8 +1611,11 @@ func (x *c19) checkX3() {
 		}
 	}
 	for _, gx := range x.getters {
-		serves, unknown := x.returnsSVIDField(gx), ""
+		serves, unknown, stale := x.returnsSVIDField(gx), "", ""
 		if !serves {
+			// the functions that run during a GetX509SVID call
+			extent := map[*ssa.Function]bool{gx: true}
+			x.explore(gx, nil, func(in ssa.Instruction, _ *c19Frame) { extent[in.Parent()] = true })
 			allInstrs(gx, func(in ssa.Instruction) {
 				ret, ok := in.(*ssa.Return)
 				if !ok || len(ret.Results) != 2 {
@@ -1404,7 +1625,30 @@ func (x *c19) checkX3() {
 					for _, o := range x.origins(u, nil) {
 						switch {
 						case o.kind == "field" && o.fid == x.svid:
-							serves = true
+							if ld, ok := o.v.(ssa.Instruction); ok && !extent[ld.Parent()] {
+								stale = x.name(ld.Parent())
+							} else {
+								serves = true
+							}
+						case o.kind == "alloc" && !c19IsSVIDPtr(o.v.Type()):
+							unknown = "variable " + o.v.Name()
+						case o.kind == "alloc":
+							// a copy of the value kept in the field
+							for _, rr := range refs(o.v) {
+								st, ok := rr.(*ssa.Store)
+								if !ok || st.Addr != o.v {
+									continue
+								}
+								for _, o2 := range x.origins(st.Val, o.fr) {
+									if o2.kind == "field" && o2.fid == x.svid {
+										if ld, ok := o2.v.(ssa.Instruction); ok && !extent[ld.Parent()] {
+											stale = x.name(ld.Parent())
+										} else {
+											serves = true
+										}
+									}
+								}
+							}
 						case o.kind == "nil" || o.kind == "alloc" || o.kind == "const" || o.kind == "field" || o.kind == "global":
 						default:
 							unknown = o.kind + " " + o.desc
@@ -1412,6 +1656,10 @@ func (x *c19) checkX3() {
 					}
 				}
 			})
+		}
+		if !serves && stale != "" {
+			r.Violation("C19.X3-svid", x.name(gx)+" returns", p.Pos(gx.Pos()), "GetX509SVID returns an SVID that was read from "+x.svid.String()+" by "+stale+", not during the call: it keeps serving the identity that was current then instead of the most recently fetched one")
+			continue
 		}
 		if !serves && unknown != "" {
 			r.OK("C19.X3-svid", x.name(gx)+" returns", p.Pos(gx.Pos()), "returns examined")
@@ -1436,6 +1684,10 @@ func c18RunWriterAs(c *Ctx, prefix string) {
 	write := p.Func("concurrency/dir", "Dir.Write")
 	tkey := p.ModPath + "/concurrency/dir.Dir"
 	fid := func(f string) string { return FieldID{tkey, f}.String() }
+	// The field names below are only hints: c18CheckWriter resolves Dir's fields by ROLE (c18ResolveRoles:
+	// construction-time path fields through what the constructor stores, the previous-version field by
+	// type / who stores it) and follows Write's helpers, closures and seams (c18_graph.go), so renamed,
+	// regrouped or re-typed unexported fields and extracted helpers in dir.go do not disturb C19.DIR-*.
 	cfg := &c18Cfg{Target: fid("target"), Prev: fid("prev"), Base: fid("base"), TargetDir: fid("targetDir"),
 		Frozen: map[string]bool{fid("target"): true, fid("base"): true, fid("targetDir"): true}, Rules: R}
 	c18CheckWriter(p, r, write, FuncName(p, write), cfg)
